@@ -47,6 +47,15 @@ def _nanflat(y_true, y_pred):
     return float(np.mean(np.abs(np.asarray(y_true, dtype=float) - yp)))
 
 
+def _infover(y_true, y_pred):
+    # unbounded (inf) when the first step is grossly over-forecast, like a log / ratio loss at a
+    # zero; the mean absolute error otherwise
+    yt, yp = np.asarray(y_true, dtype=float), np.asarray(y_pred, dtype=float)
+    if yp[0] > 1.5 * yt[0]:
+        return float("inf")
+    return float(np.mean(np.abs(yt - yp)))
+
+
 def _ratio(y_true, y_pred):
     # asymmetric in its arguments and direction-free
     return float(np.sum(np.asarray(y_pred, dtype=float)) / (1.0 + np.sum(np.abs(np.asarray(y_true, dtype=float)))))
@@ -65,6 +74,8 @@ def build_metric(name):
         return make_forecasting_scorer(_ratio, name="ratio", greater_is_better=True)
     if name == "nanflat":
         return make_forecasting_scorer(_nanflat, name="nanflat")
+    if name == "infover":
+        return make_forecasting_scorer(_infover, name="infover")
     raise ValueError(name)
 
 
@@ -87,6 +98,8 @@ def raw_metric(name):
         return _ratio
     if name == "nanflat":
         return _nanflat
+    if name == "infover":
+        return _infover
     raise ValueError(name)
 
 
